@@ -482,6 +482,11 @@ func (e *Engine) verifapi(fr *frame, fn *ssa.Function, a []Value) Value {
 			m.anyOrder = true
 		}
 		return nil
+	case "FlipOrder":
+		if m, ok := a[0].(Iface).v.(*Map); ok && m != nil {
+			m.flip = true
+		}
+		return nil
 	case "StubLexer":
 		e.stubLexer = true
 		return nil
